@@ -172,6 +172,16 @@ def t_generator_fed_by_iterator():
     return total                          # 1 + 11 + 21 = 33
 
 
+def t_list_methods():
+    table = [k * k for k in range(4, -1, -1)]           # 16 9 4 1 0
+    table.reverse()                                      # 0 1 4 9 16
+    table.insert(1, 100)
+    last = table.pop()
+    other = table.copy()
+    other.sort(reverse=True)
+    return table[1] + table[2] + last + other[0] + len(table)         # 100 + 1 + 16 + 100 + 5 = 222
+
+
 def t_itertools():
     import itertools
     c = itertools.count(10)
@@ -214,7 +224,7 @@ def t_getters():
     return first((8, 9)) + wid(Box(1, 4))              # 8 + 3 = 11
 '''
 
-EXPECT = {'t_namedtuple': 27, 't_subclass': 34, 't_partial': 42, 't_reduce': 63, 't_generators': 44, 't_sets_dicts': 74, 't_classes': 34, 't_getters': 11, 't_property_objects': 67, 't_itertools': 53, 't_lazy_pipeline': 45, 't_generator_fed_by_iterator': 33}
+EXPECT = {'t_namedtuple': 27, 't_subclass': 34, 't_partial': 42, 't_reduce': 63, 't_generators': 44, 't_sets_dicts': 74, 't_classes': 34, 't_getters': 11, 't_property_objects': 67, 't_itertools': 53, 't_lazy_pipeline': 45, 't_generator_fed_by_iterator': 33, 't_list_methods': 222}
 
 
 def main(db):
